@@ -41,7 +41,19 @@ func main() {
 	dump := flag.Bool("dump", false, "print every obligation")
 	onlyRule := flag.String("rule", "", "run only this rule (development aid)")
 	dev := flag.String("dev", "", "development aid: run one rule from devRules and print its obligations")
+	idents := flag.Bool("idents", false, "development aid: print the identifiers of the module (for tools/gen_anchors.py)")
 	flag.Parse()
+	if *idents {
+		prog, err := load.Load(load.Options{})
+		if err != nil {
+			fmt.Println("CHECKER-ERROR:", err)
+			os.Exit(2)
+		}
+		for _, id := range rules.ModuleIdents(prog) {
+			fmt.Println(id)
+		}
+		return
+	}
 
 	if *tier == "" {
 		*tier = os.Getenv("VERIF_TIER")
@@ -159,7 +171,7 @@ func runProperty(id, tier string, seed int64, prog *load.Program, dump bool, onl
 		if onlyRule != "" && r.ID != onlyRule {
 			continue
 		}
-		res := r.Run(prog)
+		res := runWithRoles(r, prog)
 		res.DedupKeys()
 		run.Results = append(run.Results, res)
 	}
